@@ -631,6 +631,50 @@ pub fn derive_unitsv() {
     judge(r, &ex, &p);
 }
 
+
+// ---- T20: an internally tagged enum whose variants are ALL unit variants ---------------------------------------------------
+#[derive(Deserr)]
+#[deserr(tag = "kind")]
+pub enum TagUnits { Aaaa, Bbbb }
+impl Viewed for TagUnits { fn slots(&self) -> [u64; MAXF] { [match self { TagUnits::Aaaa => 1, TagUnits::Bbbb => 2 }, 0, 0, 0, 0, 0] } }
+pub static D_TAGUNITS: [&str; 5] = ["kind", "Aaaa", "Bbbb", "aaaa", "xxxx"];
+pub static E_TAGUNITS: EnumDesc = EnumDesc { tag: 0, variants: &[(1, VariantDesc::Unit), (2, VariantDesc::Unit)] };
+pub fn derive_tagunits_2() {
+    reset_all(&D_TAGUNITS);
+    let tag = match nd::below(5) { 0 => Node::Str(1), 1 => Node::Str(2), 2 => Node::Str(3), 3 => Node::Str(4), _ => Node::Int(0) };
+    let k = if nd::bool() { 4 } else { 0 };
+    if nd::bool() { put_entry(0, 0, tag); put_entry(1, k, any_val()); } else { put_entry(0, k, any_val()); put_entry(1, 0, tag); }
+    let o = ValuePointerRef::Origin; let l = o.push_index(1); let p = Path::ROOT.idx(1);
+    let r = <TagUnits as Deserr<Rec>>::deserialize_from_value::<KV>(to_value(Node::Map(0, 2)), l);
+    let mut ex = Expect::EMPTY;
+    reference::enum_spec(&E_TAGUNITS, Node::Map(0, 2), p, &mut ex);
+    match (&r, ex.log.n) { (Err(e), n) if n > 0 => { oblige!(agree_on(e, &ex.log, is_tag_ev), "C04,C10:tag_and_variant_reports"); } (Ok(_), n) if n > 0 => { oblige!(!any_ev(&ex.log, is_tag_ev), "C10:accepted_although_the_tag_or_variant_must_be_reported"); } _ => {} }
+    judge(r, &ex, &p);
+}
+
+// ---- T21: default together with missing_field_error on one field; a tool attribute written before the deserr attribute ------
+#[derive(Deserr)]
+#[deserr(error = Rec)]
+pub struct DefMiss {
+    #[deserr(default = Leaf(9), missing_field_error = miss_fn)]
+    pub aaaa: Leaf,
+    #[rustfmt::skip]
+    #[deserr(rename = "zzzz")]
+    pub bbbb: Leaf,
+    #[allow(dead_code)]
+    #[deserr(default)]
+    pub cccc: Option<Leaf>,
+}
+impl Viewed for DefMiss { fn slots(&self) -> [u64; MAXF] { [lv(&self.aaaa), lv(&self.bbbb), ov(&self.cccc), 0, 0, 0] } }
+pub static D_DEFMISS: [&str; 5] = ["aaaa", "zzzz", "cccc", "bbbb", "Aaaa"];
+pub static S_DEFMISS: StructDesc = StructDesc { fields: &[
+    // a field with a default is never missing: its missing_field_error function is never called
+    FieldDesc { key: 0, presence: Presence::Default(10), ty: FTy::Leaf, missing_fn: true, conv: Conv::None, map: None },
+    FieldDesc { key: 1, presence: Presence::Required, ty: FTy::Leaf, missing_fn: false, conv: Conv::None, map: None },
+    FieldDesc { key: 2, presence: Presence::Default(0), ty: FTy::OptLeaf, missing_fn: false, conv: Conv::None, map: None },
+], deny: Deny::No, validate: None };
+pub fn derive_defmiss_2() { run_struct::<DefMiss>(&S_DEFMISS, &D_DEFMISS, 2) }
+
 // ---- C15: member order never changes the outcome (relational: same members, both orders, keep-going) -----------
 pub fn same_multiset(a: &Rec, b: &Rec) -> bool {
     if a.n != b.n { return false; }
@@ -686,6 +730,7 @@ pub fn order_camel_3() { order3_body::<Camel>(&D_CAMEL, [nd::below(6), nd::below
 pub fn order_lower_3() { order3_body::<Lower>(&D_LOWER, [nd::below(5), nd::below(5), nd::below(5)], [any_val(), any_val(), any_val()]) }
 pub fn order_deffirst_3() { order3_body::<DefFirst>(&D_DEFFIRST, [nd::below(5), nd::below(5), nd::below(5)], [any_val(), any_val(), any_val()]) }
 pub fn order_tagged_3() { order3_body::<Tagged>(&D_TAGGED, [0, any_field_key(), any_field_key()], [any_tag_val(), any_val(), any_val()]) }
+pub fn order_fns5_3() { order3_body::<Fns5>(&D_FNS5, [nd::below(5), nd::below(5), nd::below(5)], [any_val(), any_val(), any_val()]) }
 pub fn order_tagdeny_3() { order3_body::<TagDeny>(&D_TAGDENY, [0, td_key(), td_key()], [td_tag(), any_val(), any_val()]) }
 
 pub fn registry() -> Vec<(&'static str, crate::Body)> {
@@ -693,8 +738,8 @@ pub fn registry() -> Vec<(&'static str, crate::Body)> {
          ("derive_fns5_2", derive_fns5_2), ("derive_conv8_2", derive_conv8_2), ("derive_conv8_3", derive_conv8_3), ("derive_cont9", derive_cont9),
          ("derive_tagged_first", derive_tagged_first), ("derive_tagged_last", derive_tagged_last), ("derive_tagged_absent", derive_tagged_absent), ("derive_tagged_not_a_map", derive_tagged_not_a_map),
          ("derive_units", derive_units), ("derive_nest", derive_nest), ("derive_deffirst_2", derive_deffirst_2), ("derive_deffirst_3", derive_deffirst_3), ("derive_ferr10_2", derive_ferr10_2),
-         ("derive_refs13_2", derive_refs13_2), ("derive_refs13_3", derive_refs13_3), ("derive_cfrom14", derive_cfrom14), ("derive_tagfn_3", derive_tagfn_3), ("derive_tagboth_2", derive_tagboth_2), ("derive_tagval_2", derive_tagval_2), ("derive_unitsv", derive_unitsv), ("derive_camel2_2", derive_camel2_2), ("derive_cont9b", derive_cont9b), ("derive_tagdeny_first", derive_tagdeny_first), ("derive_tagdeny_last", derive_tagdeny_last), ("order_camel", order_camel), ("order_tagged", order_tagged), ("order_conv8", order_conv8),
-         ("order_camel_3", order_camel_3), ("order_lower_3", order_lower_3), ("order_deffirst_3", order_deffirst_3), ("order_tagged_3", order_tagged_3), ("order_tagdeny_3", order_tagdeny_3)]
+         ("derive_refs13_2", derive_refs13_2), ("derive_refs13_3", derive_refs13_3), ("derive_cfrom14", derive_cfrom14), ("derive_tagfn_3", derive_tagfn_3), ("derive_tagunits_2", derive_tagunits_2), ("derive_defmiss_2", derive_defmiss_2), ("derive_tagboth_2", derive_tagboth_2), ("derive_tagval_2", derive_tagval_2), ("derive_unitsv", derive_unitsv), ("derive_camel2_2", derive_camel2_2), ("derive_cont9b", derive_cont9b), ("derive_tagdeny_first", derive_tagdeny_first), ("derive_tagdeny_last", derive_tagdeny_last), ("order_camel", order_camel), ("order_tagged", order_tagged), ("order_conv8", order_conv8),
+         ("order_camel_3", order_camel_3), ("order_lower_3", order_lower_3), ("order_deffirst_3", order_deffirst_3), ("order_tagged_3", order_tagged_3), ("order_tagdeny_3", order_tagdeny_3), ("order_fns5_3", order_fns5_3)]
 }
 
 #[cfg(kani)]
